@@ -80,6 +80,11 @@ fn span_ok(text: &str, s: usize, e: usize) -> bool {
 }
 
 pub fn run_c05(cx: &Ctx) -> i32 {
+    // started first, runs beside the sweep: one 65 536-slot frame costs seconds (the VM scans the
+    // frame's undo log per save)
+    let width_ks: Vec<usize> = if cx.quick() { vec![127, 128, 129, 255, 256, 257] } else { vec![127, 128, 129, 255, 256, 257, 32767, 32768, 32769] };
+    let width_ks2 = width_ks.clone();
+    let width_thread = std::thread::spawn(move || wide::width_edges(&width_ks2));
     let k = if cx.quick() { 3 } else { 4 };
     let space = unr_space(k);
     let alphabet = vec!['a', 'é', '€', '😀', '\n'];
@@ -216,6 +221,15 @@ pub fn run_c05(cx: &Ctx) -> i32 {
     t.count("wide_sweep_programs", t4.programs);
     t.count("wide_sweep_evaluations", t4.evaluations);
     t.merge(t4);
+    // frames of 2k slots at the edges of 8- and 16-bit widths (an undo count or slot number stored
+    // in a narrower integer wraps)
+    let tw = width_thread.join().unwrap_or_else(|_| {
+        let mut t = Tally::new();
+        t.violation(0, frmc_core::jobj! {"kind" => "width-edges", "pattern" => "", "text" => "", "pos" => 0usize, "observed" => "panic", "summary" => "the width-edge pass panicked"});
+        t
+    });
+    t.count("width_edge_runs", tw.evaluations);
+    t.merge(tw);
     // characters whose case-folded partners have another UTF-8 length (an offset computed from the
     // pattern's literal instead of the text lands inside a character)
     let tcf = crate::casefold::iter_sweep();
@@ -226,7 +240,7 @@ pub fn run_c05(cx: &Ctx) -> i32 {
         t,
         Finish {
             rule: format!(
-                "{}; every pattern of {} (no scoping filter: self-referential backreferences, conditions on open groups, empty loops, \\K and \\G anywhere) x every text over {:?} up to length {}; entry points: captures_from_pos at every char-boundary offset (all spans validated, Match::as_str / range / Index exercised), find_iter, captures_iter, split, splitn(0..3), try_replacen(0..2; constant, $0, [$1]); oracle: returns normally, spans satisfy start<=end<=len on char boundaries, iterators end within len+2 items; backtrack_limit 2000 and hook horizons so that a looping run is cut and reported; non-trivial = (pattern,text) where the pattern is VM-compiled and some offset has a match; plus a {} (here: every span of the widened pattern valid)",
+                "{}; frames of 2k capture slots between two backtrack points for k in [127, 128, 129, 255, 256, 257] (thorough: also 32767, 32768, 32769 - one such frame costs about a minute; expected result known by construction); every pattern of {} (no scoping filter: self-referential backreferences, conditions on open groups, empty loops, \\K and \\G anywhere) x every text over {:?} up to length {}; entry points: captures_from_pos at every char-boundary offset (all spans validated, Match::as_str / range / Index exercised), find_iter, captures_iter, split, splitn(0..3), try_replacen(0..2; constant, $0, [$1]); oracle: returns normally, spans satisfy start<=end<=len on char boundaries, iterators end within len+2 items; backtrack_limit 2000 and hook horizons so that a looping run is cut and reported; non-trivial = (pattern,text) where the pattern is VM-compiled and some offset has a match; plus a {} (here: every span of the widened pattern valid)",
                 crate::casefold::describe_iter(), space.describe(), alphabet, max_len, wide::describe(&wsp, 3)
             ),
             exhaustive: true,
